@@ -18,7 +18,7 @@ VERIF = str(Path(__file__).resolve().parent.parent)
 REPO = os.environ.get("SPOX_REPO", "/work/repo-c10")
 assert REPO != "/repo", "never mutate /repo: point SPOX_REPO at a scratch worktree"
 R = REPO + "/src/spox/"
-OBLIGATION_ONLY = {"S1_new_attr_class", "S2_new_array_function", "S3_new_storing_init"}  # expected: exit 1, no-failing-input-found
+OBLIGATION_ONLY = {"S1_new_attr_class", "S2_new_array_function", "S3_new_storing_init", "I7_lazy_tuple"}  # expected: exit 1, no-failing-input-found
 EQUIVALENT = {"B21b_no_flatten", "M12_ravel_K", "M15_future_init_asarray", "M16_lazy_onnx_cache", "D2_raw_correct_large"}
 MUTS = {
  # Appendix B row 20
